@@ -19,6 +19,15 @@ import (
 // raceWorker: many goroutines run a mix of all API families on shared keys,
 // keyrings and the package-level encodings; every result is compared with the
 // value computed sequentially beforehand.  Built with -race for the C20 check.
+// readOnly / writeOnly hide every method but Read / Write
+type readOnly struct{ r io.Reader }
+
+func (r readOnly) Read(p []byte) (int, error) { return r.r.Read(p) }
+
+type writeOnly struct{ w io.Writer }
+
+func (w writeOnly) Write(p []byte) (int, error) { return w.w.Write(p) }
+
 func raceWorker(seed uint64, iters, goroutines int) int {
 	r := &SplitMix{s: seed}
 	h := &H{rng: r}
@@ -66,7 +75,7 @@ func raceWorker(seed uint64, iters, goroutines int) int {
 				i := rr.Intn(len(fx))
 				f := fx[i]
 				ring := rings[i]
-				switch rr.Intn(11) {
+				switch rr.Intn(12) {
 				case 0: // binary receive
 					switch f.p.name {
 					case "enc":
@@ -217,6 +226,59 @@ func raceWorker(seed uint64, iters, goroutines int) int {
 							fail("streaming encrypt/decrypt round trip: %v", err)
 						}
 					}
+				case 10: // the reader-taking entry points over a reader that offers Read only (a pipe, a socket:
+					// no WriteTo/ReadFrom shortcut, so the library's own copy loops and buffers are used)
+					switch f.p.name {
+					case "det":
+						if _, err := saltpack.VerifyDetachedReader(saltpack.CheckKnownMajorVersion, readOnly{bytes.NewReader(f.p.msg)}, f.p.wire, ring); err != nil {
+							fail("VerifyDetachedReader: %v", err)
+						}
+						if _, _, err := saltpack.Dearmor62VerifyDetachedReader(saltpack.CheckKnownMajorVersion, readOnly{bytes.NewReader(f.p.msg)}, f.armored, ring); err != nil {
+							fail("Dearmor62VerifyDetachedReader: %v", err)
+						}
+					case "att":
+						_, rd, err := saltpack.NewVerifyStream(saltpack.CheckKnownMajorVersion, readOnly{bytes.NewReader(f.p.wire)}, ring)
+						if err != nil {
+							fail("NewVerifyStream: %v", err)
+							break
+						}
+						if pt, err := io.ReadAll(readOnly{rd}); err != nil || !bytes.Equal(pt, f.p.msg) {
+							fail("NewVerifyStream read: %v", err)
+						}
+					case "enc":
+						_, rd, _, err := saltpack.NewDearmor62DecryptStream(saltpack.CheckKnownMajorVersion, readOnly{strings.NewReader(f.armored)}, ring)
+						if err != nil {
+							fail("NewDearmor62DecryptStream: %v", err)
+							break
+						}
+						if pt, err := io.ReadAll(readOnly{rd}); err != nil || !bytes.Equal(pt, f.p.msg) {
+							fail("NewDearmor62DecryptStream read: %v", err)
+						}
+					case "sc":
+						_, rd, err := saltpack.NewSigncryptOpenStream(readOnly{bytes.NewReader(f.p.wire)}, ring, nil)
+						if err != nil {
+							fail("NewSigncryptOpenStream: %v", err)
+							break
+						}
+						if pt, err := io.ReadAll(readOnly{rd}); err != nil || !bytes.Equal(pt, f.p.msg) {
+							fail("NewSigncryptOpenStream read: %v", err)
+						}
+					}
+					if f.p.sigSk != nil {
+						msg := rr.Bytes(rr.Intn(3000))
+						var buf bytes.Buffer
+						w, err := saltpack.NewSignDetachedStream(saltpack.Version2(), writeOnly{&buf}, sigSecretFromBytes(f.p.sigSk))
+						if err != nil {
+							fail("NewSignDetachedStream: %v", err)
+							break
+						}
+						w.Write(msg[:len(msg)/3])
+						w.Write(msg[len(msg)/3:])
+						w.Close()
+						if _, err := saltpack.VerifyDetachedReader(saltpack.CheckKnownMajorVersion, readOnly{bytes.NewReader(msg)}, buf.Bytes(), ring); err != nil {
+							fail("detached stream sign/verify round trip: %v", err)
+						}
+					}
 				default: // frames
 					hdr := saltpack.MakeArmorHeader(f.at, "KB")
 					ftr := saltpack.MakeArmorFooter(f.at, "KB")
@@ -262,7 +324,7 @@ func init() {
 		return
 	}}
 	campaigns["C20"] = campaign{
-		rule: "cases: one run of the race worker per (GOMAXPROCS in {1,2,4,16}, seed): 16 goroutines (32 in thorough) each perform 150 (1500) operations drawn at random from all API families — Open/Verify/VerifyDetached/SigncryptOpen, their Dearmor62 forms, Armor62Seal/Open, basex encode/decode on the four shared encodings, IsSaltpackArmoredPrefix/BinarySlice/ClassifyStream, Seal+Open, SignArmor62+Dearmor62Verify, SigncryptArmor62Seal+open round trips with fresh randomness, MakeArmorHeader/CheckArmor62 — on shared keys, keyrings and package-level state, with random start offsets; the binary is built with -race; every result is compared with the value computed sequentially beforehand; any race report or differing result is a violation.",
+		rule: "cases: one run of the race worker per (GOMAXPROCS in {1,2,4,16}, seed): 16 goroutines (32 in thorough) each perform 150 (1500) operations drawn at random from all API families — Open/Verify/VerifyDetached/SigncryptOpen, their Dearmor62 forms, Armor62Seal/Open, basex encode/decode on the four shared encodings, IsSaltpackArmoredPrefix/BinarySlice/ClassifyStream, Seal+Open, SignArmor62+Dearmor62Verify, SigncryptArmor62Seal+open round trips with fresh randomness, MakeArmorHeader/CheckArmor62, and the reader/writer-taking entry points (VerifyDetachedReader, Dearmor62VerifyDetachedReader, NewVerifyStream, NewDearmor62DecryptStream, NewSigncryptOpenStream, NewSignDetachedStream) over readers and writers that offer only Read/Write — on shared keys, keyrings and package-level state, with random start offsets; the binary is built with -race; every result is compared with the value computed sequentially beforehand; any race report or differing result is a violation.",
 		gen: func(h *H) {
 			iters, gor := "150", "16"
 			seeds := 1
